@@ -209,6 +209,21 @@ func registerZzv(e *Engine) {
 		cell := c.E.namedCell(st, name, func() Value { return smt.IntC(0) })
 		return one(st, smt.Eq(st.heap[cell].(*smt.Term), smt.IntC(1)))
 	})
+	// WatchWrites(path, &mutex): every later write to the file cell is classified by whether the
+	// running code holds the mutex (ghost flag == 1) at that moment; UnlockedWrites(path) counts the
+	// writes made without it.
+	e.reg(z+"WatchWrites", func(c *CallCtx, st *State, args []Value) []Outcome {
+		p := c.E.pathArg(args[0], "WatchWrites")
+		mp := args[1].(Ptr)
+		cell := c.E.namedCell(st, "watch:"+p, func() Value { return Str{} })
+		st.heap[cell] = Str{S: fmt.Sprintf("mutex:%d%v", mp.Cell, mp.Path)}
+		return one(st, nil)
+	})
+	e.reg(z+"UnlockedWrites", func(c *CallCtx, st *State, args []Value) []Outcome {
+		p := c.E.pathArg(args[0], "UnlockedWrites")
+		cell := c.E.namedCell(st, "unlocked:"+p, func() Value { return smt.IntC(0) })
+		return one(st, st.heap[cell])
+	})
 	e.reg(z+"SetTicks", func(c *CallCtx, st *State, args []Value) []Outcome {
 		cell := c.E.namedCell(st, "select.ticks", func() Value { return smt.IntC(0) })
 		st.heap[cell] = args[0]
@@ -343,9 +358,32 @@ func registerFiles(e *Engine) {
 		return one(st, nil)
 	})
 
+	// zzv.FileText(path, text): the file holds exactly this (concrete) text; zzv.RealFileIO(): the
+	// integer read helper runs its real body on top of an os.ReadFile that serves those texts.
+	e.reg(z+"FileText", func(c *CallCtx, st *State, args []Value) []Outcome {
+		p := c.E.pathArg(args[0], "FileText")
+		txt, ok := strArg(args[1])
+		if !ok {
+			c.E.abort("FileText needs a concrete text")
+		}
+		cell := c.E.namedCell(st, "text:"+p, func() Value { return Str{} })
+		st.heap[cell] = Str{S: txt}
+		return one(st, nil)
+	})
+	e.reg(z+"RealFileIO", func(c *CallCtx, st *State, args []Value) []Outcome {
+		cell := c.E.namedCell(st, "file:real", func() Value { return smt.False })
+		st.heap[cell] = smt.True
+		return one(st, nil)
+	})
+
 	// util.ReadIntFromFile(path) (int, error)
 	e.reg(utilPkg+".ReadIntFromFile", func(c *CallCtx, st *State, args []Value) []Outcome {
 		en := c.E
+		if cell, ok := en.named["file:real"]; ok {
+			if v, ok := st.heap[cell]; ok && v.(*smt.Term).IsTrue() {
+				return en.execFuncFV(st, c.Fn, args, nil)
+			}
+		}
 		p := en.pathArg(args[0], "ReadIntFromFile")
 		f := en.fileGet(st, p)
 		exists, garbage, rerr := f.F[fExists].(*smt.Term), f.F[fGarbage].(*smt.Term), f.F[fReadErr].(*smt.Term)
@@ -374,6 +412,14 @@ func registerFiles(e *Engine) {
 		f := en.fileGet(st, p)
 		f = with(f, fWrites, smt.Add(f.F[fWrites].(*smt.Term), smt.IntC(1)))
 		en.fileSet(st, p, f)
+		if wc, ok := en.named["watch:"+p]; ok {
+			if w, ok := st.heap[wc]; ok {
+				mc := en.namedCell(st, w.(Str).S, func() Value { return smt.IntC(0) })
+				uc := en.namedCell(st, "unlocked:"+p, func() Value { return smt.IntC(0) })
+				held := smt.Eq(st.heap[mc].(*smt.Term), smt.IntC(1))
+				st.heap[uc] = smt.Add(st.heap[uc].(*smt.Term), smt.Ite(held, smt.IntC(0), smt.IntC(1)))
+			}
+		}
 		wm := f.F[fWMode].(*smt.Term)
 		conds := []*smt.Term{smt.Eq(wm, smt.IntC(0)), smt.Eq(wm, smt.IntC(1)), smt.Not(smt.Or(smt.Eq(wm, smt.IntC(0)), smt.Eq(wm, smt.IntC(1))))}
 		sts := en.forkStates(st, conds)
